@@ -6,6 +6,7 @@ import (
 	"io"
 	"log/slog"
 	"net/http"
+	"os"
 	"strings"
 	"testing"
 	"testing/synctest"
@@ -13,11 +14,13 @@ import (
 
 	"github.com/bartventer/httpcache"
 	"github.com/bartventer/httpcache/store/driver"
+	"github.com/bartventer/httpcache/store/fscache"
 	"github.com/bartventer/httpcache/store/memcache"
 )
 
 type runOpts struct {
 	backend func() driver.Conn // default memcache
+	kind    string             // "", "fs", "fsenc", "fsreopen": a file-system backend in a scratch directory
 	debug   bool               // debug-level logger instead of the discard logger
 	fault   func(op, key string, n int) *faultAction
 	// hooks
@@ -33,9 +36,32 @@ func runCase(t *testing.T, c *Case, opts runOpts) []string {
 	synctest.Test(t, func(t *testing.T) {
 		rec := &recorder{}
 		var inner driver.Conn
-		if opts.backend != nil {
+		var reopen func() driver.Conn
+		switch {
+		case opts.backend != nil:
 			inner = opts.backend()
-		} else {
+		case opts.kind == "fs" || opts.kind == "fsenc" || opts.kind == "fsreopen":
+			dir, err := os.MkdirTemp("", "verif-fs-")
+			if err != nil {
+				t.Fatal(err)
+			}
+			defer os.RemoveAll(dir)
+			open := func() driver.Conn {
+				fo := []fscache.Option{fscache.WithBaseDir(dir)}
+				if opts.kind == "fsenc" {
+					fo = append(fo, fscache.WithEncryption("6S-Ks2YYOW0xMvTzKSv6QD30gZeOi1c6Ydr-As5csWk="))
+				}
+				c, err := fscache.Open("verif", fo...)
+				if err != nil {
+					t.Fatal(err)
+				}
+				return c
+			}
+			inner = open()
+			if opts.kind == "fsreopen" {
+				reopen = open
+			}
+		default:
 			inner = memcache.Open()
 		}
 		conn := &recConn{inner: inner, rec: rec, fault: opts.fault}
@@ -50,6 +76,12 @@ func runCase(t *testing.T, c *Case, opts runOpts) []string {
 		rt := httpcache.NewTransport(dsn, tops...)
 		rec.fgID = goid()
 		for k, rq := range c.Reqs {
+			if reopen != nil && k > 0 {
+				// a new handle on the same directory, as after a restart of the process
+				conn.mu.Lock()
+				conn.inner = reopen()
+				conn.mu.Unlock()
+			}
 			time.Sleep(rq.Gap)
 			req, err := buildRequest(context.Background(), rq)
 			if err != nil {
